@@ -249,10 +249,11 @@ def prepare(engines, targets, pid=None):
 # C side
 
 CFLAGS = ["-O1", "-g", "-fno-omit-frame-pointer", "-fsanitize=address,undefined", "-fno-sanitize-recover=all", "-w"]
-def build_harness(engine, workdir, extra=()):
+PLAIN_CFLAGS = ["-O1", "-g", "-fno-omit-frame-pointer", "-w"]       # for the valgrind pass: no sanitizer runtime
+def build_harness(engine, workdir, extra=(), plain=False):
     src = os.path.join(VERIF, "harness", engine + ".c")
-    out = os.path.join(workdir, "h_" + engine)
-    cmd = ["gcc"] + CFLAGS + list(extra) + ["-I" + os.path.join(VERIF, "harness"), "-I" + os.path.join(REPO, "src", "include"),
+    out = os.path.join(workdir, ("p_" if plain else "h_") + engine)
+    cmd = ["gcc"] + (PLAIN_CFLAGS if plain else CFLAGS) + list(extra) + ["-I" + os.path.join(VERIF, "harness"), "-I" + os.path.join(REPO, "src", "include"),
            "-I" + os.path.join(REPO, "src"), "-I" + os.path.join(REPO, "src", "sized"), "-I" + os.path.join(REPO, "src", "memory"),
            "-o", out, src, "-lm"]
     rc, o = sh(cmd, timeout=600)
